@@ -427,6 +427,7 @@ def step (cfg : Cfg) (w : World) (a : Action) : World × Outcome :=
     | .got w' (some x) => (awaitFiber (schedule w' f (.num x)) f, .await)
     | .got w' none => (awaitFiber (schedule w' f .nil) f, .await)
     | .blocked w' => (awaitFiber w' f, .await)
+  | some _, .select [] => (w, .noop)   -- janet_arity(argc, 1, -1): an error before anything happens; not modelled
   | some f, .select cls =>
     match choiceImmediate cfg w f cls with
     | some (w', v) => (w', .ret v)
@@ -438,6 +439,12 @@ def step (cfg : Cfg) (w : World) (a : Action) : World × Outcome :=
      .await)
   | some f, .finish e => (finishFiber w f e, .done)
   | _, _ => (w, .noop)
+
+/-- hypothesis of the wake-up theorems: a select names every channel at most once (a select with a give and a take
+    clause on one channel can be matched with itself in the registration loop; see `Props/C06.lean`) -/
+def Action.noSelfMatch : Action → Prop
+  | .select cls => (cls.map Clause.chan).Nodup
+  | _ => True
 
 /-- run a list of actions -/
 def run (cfg : Cfg) (w : World) (as : List Action) : World := as.foldl (fun w a => (step cfg w a).1) w
